@@ -302,6 +302,10 @@ func Run(c *hx.Ctx) {
 		h1bCases(c)
 		return
 	}
+	if len(c.Args) == 1 && c.Args[0] == "h2w" { // only the HTTP/2 header-block write-order kind
+		h2wCases(c)
+		return
+	}
 	if len(c.Args) >= 1 && c.Args[0] == "e2e" { // only the end-to-end kind (4 args: one given plan)
 		runE2E(c, hx.NewRng(c.Seed^0xe2e0e2e))
 		return
@@ -391,4 +395,6 @@ func Run(c *hx.Ctx) {
 	runE2E(c, hx.NewRng(c.Seed^0xe2e0e2e))
 	// 5. HTTP/1 per-request buffers recycled through the pool (h1b.go)
 	h1bCases(c)
+	// 6. HTTP/2 header blocks of concurrent writers on one connection, decoded in wire order (h2w.go)
+	h2wCases(c)
 }
